@@ -238,6 +238,35 @@ theorem trim_spec (chars c : List Nat) :
       = ((c.dropWhile (inSet chars)).reverse.dropWhile (inSet chars)).reverse :=
   trim_range _ c
 
+/-- `split(tokens, separators, skipEmpty)`: the tokens are the pieces of the value between separator
+    chars (`splitRef`), all of them or — with `skipEmpty` — the non-empty ones; the value is unchanged -/
+theorem split_spec {n : Nat} {regs : Nat → List Nat} {s s' : St} (r : Reach n regs s) {v : Nat}
+    (hv : validVar s v = true) {seps c : List Nat} {skip : Bool} {toks : List (List Byte)}
+    (e : split s v seps skip = some (s', toks)) (hc : allSome (absVar s v) = some c) (hz : ∀ x ∈ c, x ≠ 0) :
+    toks = splitOut skip (splitRef seps c) ∧ ∀ w, absVar s' w = absVar s w :=
+  split_eq (reach_good r).inv (valid_facts hv).1 e hc hz
+
+/-- `find(char)` / `findLast(char)`: first / last index holding the char -/
+theorem findChar_spec {n : Nat} {regs : Nat → List Nat} {s : St} (r : Reach n regs s) {v c : Nat} {a : List Nat}
+    (ha : allSome (absVar s v) = some a) :
+    (∀ res, findC s v c = some res → res = a.findIdx? (· == c)) ∧
+    (∀ res i, findLastC s v c = some res → res = some i →
+      ∃ hi : i < a.length, a[i] = c ∧ ∀ j (hj : j < a.length), i < j → a[j] ≠ c) := by
+  have g := (reach_good r).inv
+  refine ⟨fun res e => findC_eq g e ha, ?_⟩
+  intro res i e hi
+  have := findLastC_eq g e ha
+  rw [hi] at this
+  exact findLastIdx_some this.symm
+
+/-- `operator==` and `startsWith` decide equality / the prefix relation of the values, whatever blocks
+    the two variables share (they may be the same variable) -/
+theorem equal_startsWith_spec {n : Nat} {regs : Nat → List Nat} {s : St} (r : Reach n regs s) {v w : Nat}
+    {a b : List Nat} (ha : allSome (absVar s v) = some a) (hb : allSome (absVar s w) = some b) :
+    (∀ res, equalS s v w = some res → (res = true ↔ a = b)) ∧
+    (∀ res, startsWith s v w = some res → (res = true ↔ b <+: a)) :=
+  ⟨fun _ e => equalS_eq (reach_good r).inv e ha hb, fun _ e => startsWith_eq (reach_good r).inv e ha hb⟩
+
 /-! ### non-vacuity: a concrete history with literal and unterminated attached memory, lazy copies,
     self arguments, temporaries and C-string based calls meets every hypothesis used above -/
 
